@@ -114,8 +114,8 @@ func spawnWindows(p *packages.Package) []spawnWindow {
 			panic("startGoroutine: copy destination is not a selector: " + exprString(call.Args[0]))
 		}
 		sl, ok := call.Args[1].(*ast.SliceExpr)
-		if !ok || sl.Low == nil || sl.High == nil || sl.Max != nil {
-			panic("startGoroutine: copy source is not a two-index slice: " + exprString(call.Args[1]))
+		if !ok || sl.Low == nil || sl.Max != nil {
+			panic("startGoroutine: copy source is not a slice expression with a low bound: " + exprString(call.Args[1]))
 		}
 		src, ok := sl.X.(*ast.SelectorExpr)
 		if !ok || exprString(src.X) != "vm.regs" {
@@ -142,6 +142,11 @@ func spawnWindows(p *packages.Package) []spawnWindow {
 			panic("startGoroutine: slice low bound offset is not a field of off: " + exprString(lo.Y))
 		}
 		w.offField = f.Sel.Name
+		if sl.High == nil {
+			// open slice: up to the end of the register file (H = 0 in the fact)
+			out = append(out, w)
+			return true
+		}
 		// high = vm.fp[i] + H
 		hi, ok := sl.High.(*ast.BinaryExpr)
 		if !ok || hi.Op != token.ADD || exprString(hi.X) != exprString(lo.X) {
@@ -204,7 +209,7 @@ func init() {
 		fmt.Fprintf(b, "Definition callStatus_values : list N := %s.\n\n", coqNList(vals))
 		fmt.Fprintf(b, "(* internal/runtime/vm.go *)\nDefinition stackSize : N := %d.\n", constInt(rt, "stackSize"))
 		fmt.Fprintf(b, "(* internal/compiler/builder.go *)\nDefinition maxRegistersCount : N := %d.\n\n", constInt(co, "maxRegistersCount"))
-		fmt.Fprintf(b, "(* VM.startGoroutine: copy(nvm.regs.K, vm.regs.K[vm.fp[i]+Addr(off.F) : vm.fp[i]+H]);\n   one entry (i, index of F in Op,A,B,C, H, destination is the whole register file) per register kind *)\n")
+		fmt.Fprintf(b, "(* VM.startGoroutine: copy(nvm.regs.K, vm.regs.K[vm.fp[i]+Addr(off.F) : vm.fp[i]+H]), H = 0 when the slice has no high bound;\n   one entry (i, index of F in Op,A,B,C, H, destination is the whole register file) per register kind *)\n")
 		fieldIdx := map[string]int64{"Op": 0, "A": 1, "B": 2, "C": 3}
 		fmt.Fprintf(b, "Definition spawn_windows : list (N * N * N * bool) := [")
 		for i, sw := range spawnWindows(rt) {
